@@ -31,7 +31,8 @@ type program struct {
 	Expect string   `json:"expect"`          // canonical rendering of the expected result ("" = see Check)
 	Multi  []string `json:"multi,omitempty"` // several acceptable results (fan-in: checked by per-producer order instead)
 	FanIn  bool     `json:"fanin,omitempty"`
-	ErrOK  bool     `json:"err,omitempty"` // the program is expected to end with an error (and no panic)
+	FanOut int      `json:"fanout,omitempty"` // n items must arrive exactly once at one of two consumers
+	ErrOK  bool     `json:"err,omitempty"`    // the program is expected to end with an error (and no panic)
 	Bound  int      `json:"bound"`
 	Stages int      `json:"stages"`
 	// LockPoints: also every lock operation of the environment is a schedule
@@ -73,8 +74,12 @@ func consumer(form int, ch string) string {
 		return "for v in " + ch + " { r += v }"
 	case 1:
 		return "for { v = (<-" + ch + "); if v == nil { break }; r += v }"
-	default:
+	case 2:
 		return "for { v, ok = <-" + ch + "; if !ok { break }; r += v }"
+	default:
+		// leave a range loop early, then range over the same channel again:
+		// nothing that was waiting in the channel may be lost
+		return "for v in " + ch + " { r += v; break }\nfor v in " + ch + " { r += v }"
 	}
 }
 
@@ -103,7 +108,7 @@ func pipelines(thorough bool) []program {
 	for _, c := range caps {
 		for _, el := range elems {
 			for n := 1; n <= 3; n++ {
-				for form := 0; form < 3; form++ {
+				for form := 0; form < 4; form++ {
 					add([]int{c}, el, n, form, b1)
 				}
 			}
@@ -179,6 +184,26 @@ func pipelines(thorough bool) []program {
 			"x = <-out\ny = <-out\nif x > y { [y, x] } else { [x, y] }\n"
 		ps = append(ps, program{Name: fmt.Sprintf("shared-go-func/params%d", np), Src: src2, Expect: render([]interface{}{w1, w2}), Bound: 2, Stages: 1, LockPoints: true})
 	}
+	// fan-out: one producer, two consumers using the receive EXPRESSION; every
+	// item must arrive exactly once at one of them and no consumer may see nil
+	// before the channel is closed
+	for _, c := range caps {
+		for n := 2; n <= 3; n++ {
+			items := []string{"1", "2", "3"}[:n]
+			// the channel is never closed and the workers do a fixed number of
+			// receives (1 and n-1): every receive expression must yield an item
+			src := fmt.Sprintf("c = make(chan int64, %d)\nout = make(chan interface, %d)\n", c, n+1) +
+				fmt.Sprintf("go func() { for v in [%s] { c <- v } }()\n", strings.Join(items, ", ")) +
+				"func worker(k) { for i = 0; i < k; i++ { out <- (<-c) } }\n" +
+				fmt.Sprintf("go worker(1)\ngo worker(%d)\n", n-1) +
+				fmt.Sprintf("r = []\nfor i = 0; i < %d; i++ { x = <-out; r += x }\nr\n", n)
+			bound := 2
+			if thorough {
+				bound = 3
+			}
+			ps = append(ps, program{Name: fmt.Sprintf("fanout/cap%d/n%d", c, n), Src: src, FanOut: n, Bound: bound, Stages: 1})
+		}
+	}
 	// fan-in of two producers; a closer goroutine closes after both are done
 	for _, c := range caps {
 		for n := 1; n <= 2; n++ {
@@ -209,6 +234,10 @@ func facts() []program {
 		{Name: "fact/send-closed-unbuffered-error", Src: "c = make(chan int64)\nclose(c)\nc <- 1\n\"unreached\"", ErrOK: true, Bound: -1},
 		{Name: "fact/range-closed-empty", Src: "c = make(chan string, 2)\nclose(c)\nr = []\nfor v in c { r += v }\nr", Expect: render([]interface{}{}), Bound: -1},
 		{Name: "fact/range-drains-then-ends", Src: "c = make(chan string, 2)\nc <- \"x\"\nc <- \"y\"\nclose(c)\nr = []\nfor v in c { r += v }\nr", Expect: render([]interface{}{"x", "y"}), Bound: -1},
+		{Name: "fact/range-break-keeps-buffered", Src: "c = make(chan int64, 4)\nc <- 1\nc <- 2\nc <- 3\nfor v in c { break }\n[(<-c), (<-c)]", Expect: render([]interface{}{int64(2), int64(3)}), Bound: -1},
+		{Name: "fact/range-return-keeps-buffered", Src: "c = make(chan int64, 4)\nc <- 1\nc <- 2\nc <- 3\nfunc first() { for v in c { return v } }\na = first()\n[a, (<-c), (<-c)]", Expect: render([]interface{}{int64(1), int64(2), int64(3)}), Bound: -1},
+		{Name: "fact/range-error-keeps-buffered", Src: "c = make(chan int64, 4)\nc <- 1\nc <- 2\nc <- 3\ntry { for v in c { throw \"x\" } } catch { }\n[(<-c), (<-c)]", Expect: render([]interface{}{int64(2), int64(3)}), Bound: -1},
+		{Name: "fact/recv-stmt-then-expr", Src: "c = make(chan int64, 4)\nc <- 1\nc <- 2\nc <- 3\nv, ok = <-c\nw = <-c\n[v, ok, w, (<-c)]", Expect: render([]interface{}{int64(1), true, int64(2), int64(3)}), Bound: -1},
 		// go: arguments evaluated by the caller, before the start, in order
 		{Name: "go/args-evaluated-by-caller", Src: "out = make(chan interface, 1)\nx = 1\ngo func(a) { out <- a }(x)\nx = 2\n<-out", Expect: render(int64(1)), Bound: -1},
 		{Name: "go/args-order-and-capture", Src: "log = make(chan int64, 8)\nout = make(chan interface, 1)\nfunc p(i) { log <- i; return i }\ngo func(a, b) { out <- [a, b] }(p(1), p(2))\nlog <- 9\nr = <-out\n[<-log, <-log, <-log, r]", Expect: render([]interface{}{int64(1), int64(2), int64(9), []interface{}{int64(1), int64(2)}}), Bound: -1},
@@ -253,6 +282,21 @@ func check(p program, o vmrun.Outcome) (class, detail string) {
 	}
 	if o.Err != nil {
 		return "error", o.Err.Error()
+	}
+	if p.FanOut > 0 {
+		l, ok := o.Val.([]interface{})
+		if !ok || len(l) != p.FanOut {
+			return "wrong-result", fmt.Sprintf("got %s want the %d items exactly once in some order", render(o.Val), p.FanOut)
+		}
+		seen := map[int64]bool{}
+		for _, x := range l {
+			i, ok := x.(int64)
+			if !ok || i < 1 || i > int64(p.FanOut) || seen[i] {
+				return "wrong-result", fmt.Sprintf("got %s want the %d items exactly once in some order", render(o.Val), p.FanOut)
+			}
+			seen[i] = true
+		}
+		return "", ""
 	}
 	if p.FanIn {
 		l, ok := o.Val.([]interface{})
